@@ -100,7 +100,7 @@ theorem storeOK_compact {T : List Tx} {cs cs' : List CTx} {p0 pF : PImg} {covere
     (h1 : ∀ q ∈ allProps T, q ∈ (logRuns (scan cs).ckpt cs).flatMap (·.props) ∨ q ∈ covered)
     (h2 : (scan cs).proot = 0 → covered = [])
     (mruns : m.runs = logRuns (scan cs).ckpt cs) (mroot : m.proot = (scan cs).proot) (mptop : m.ptop = (scan cs).ptop)
-    (k0 root : Nat) (top : Bool) (hk0 : k0 = frontier p0)
+    (k0 root : Nat) (top : Bool)
     (hseg : ∃ s, segFind pF k0 = some s ∧ s.edges = cEdges m)
     (hsame : cProps m = [] → (root, top) = (m.proot, m.ptop))
     (htree : cProps m ≠ [] → root ≠ 0 ∧ top = false ∧ ∃ t, treeFind pF root = some t ∧ TreeOK (allProps T) (covered ++ cProps m) t)
@@ -186,7 +186,8 @@ theorem inv_after_pages {cfg : Cfg} {T : List Tx} {fs : FS} {m : Mem} {cs : List
     (h : InvOpen T fs m cs c) (pp : PagesPost cfg T fs m covered)
     (h1 : ∀ q ∈ allProps T, q ∈ (logRuns (scan cs).ckpt cs).flatMap (·.props) ∨ q ∈ covered)
     (h2 : (scan cs).proot = 0 → covered = []) :
-    InvOpen T (fs.steps (ioSteps (pagesA cfg m fs.pv).1)) { m with pm := (pagesA cfg m fs.pv).2.1.pm } cs c := by
+    InvOpen T (fs.steps (ioSteps (pagesA cfg m fs.pv).1))
+      { m with pm := (pagesA cfg m fs.pv).2.1.pm, bm := (pagesA cfg m fs.pv).2.1.bm } cs c := by
   obtain ⟨hw, hd, hr⟩ := steps_pager_wal _ pp.pager.facts.2 fs
   obtain ⟨n, hcg⟩ := pp.cg
   rw [h.mroot] at hcg
@@ -200,7 +201,8 @@ theorem inv_after_pages {cfg : Cfg} {T : List Tx} {fs : FS} {m : Mem} {cs : List
       pager := hcg.pagerOK h.pager (frontier_ge2 h.pager)
       store := hst
       full := by rw [hcg.hdr.len]; exact h.full
-      mpm := pp.hdr.symm
+      mpm := by show SameKey _ (pagesA cfg m fs.pv).2.1.pm; rw [pp.hdr]; exact SameKey.refl _
+      mbm := by show _ ≤ (pagesA cfg m fs.pv).2.1.bm; rw [pp.pbm]; exact Nat.le_refl _
       mlen := h.mlen
       mstart := by rw [hcg.hdr.start]; exact h.mstart
       mexts := h.mexts
@@ -249,7 +251,7 @@ theorem compact_new {cfg : Cfg} {T : List Tx} {fs : FS} {m : Mem} {cs : List CTx
       ∃ t, treeFind (fs.steps (ioSteps (pagesA cfg m fs.pv).1)).pd (pagesA cfg m fs.pv).2.2.2.1 = some t ∧
         TreeOK (allProps T) (covered ++ cProps m) t := pp.tree
   exact storeOK_compact (m := m) h.store hcg h1 h2 h.mruns h.mroot h.mptop (pagesA cfg m fs.pv).2.2.1 (pagesA cfg m fs.pv).2.2.2.1
-    (pagesA cfg m fs.pv).2.2.2.2 pp.k0 pp.seg (fun hp => by rw [← pp.same hp]) htree'
+    (pagesA cfg m fs.pv).2.2.2.2 pp.seg (fun hp => by rw [← pp.same hp]) htree'
     (by rw [hsc]) (by rw [hsc]) (by rw [hsc]) (by rw [hsc]; exact hruns)
 
 end Nervus.Crash
@@ -324,11 +326,11 @@ theorem compact_safe {cfg : Cfg} {T : List Tx} {fs : FS} {m : Mem} {cs : List CT
   generalize hfsP : fs.steps (ioSteps (pagesA cfg m fs.pv).1) = fsP at hinv hwP hdP hrP
   have hnew := compact_new h hruns pp h1 h2
   rw [hfsP] at hnew
-  have htP : TailPre cfg fsP { m with pm := (pagesA cfg m fs.pv).2.1.pm } := by
+  have htP : TailPre cfg fsP { m with pm := (pagesA cfg m fs.pv).2.1.pm, bm := (pagesA cfg m fs.pv).2.1.bm } := by
     rcases ht with ht | ht
     · left; rw [hwP]; exact ht
     · right; exact ht
-  have hwsEq : ({ m with pm := (pagesA cfg m fs.pv).2.1.pm } : Mem).ws fsP.wf = m.ws fs.wf := by
+  have hwsEq : ({ m with pm := (pagesA cfg m fs.pv).2.1.pm, bm := (pagesA cfg m fs.pv).2.1.bm } : Mem).ws fsP.wf = m.ws fs.wf := by
     simp [Mem.ws, hwP]
   obtain ⟨sa0, hpj0, hpd0, hst0, hclean0⟩ := cut_state hinv htP
   rw [hwsEq] at sa0 hpj0 hpd0 hst0 hclean0
@@ -385,16 +387,19 @@ end Nervus.Crash
 
 namespace Nervus.Crash
 
-theorem foldl_onlySetPm : ∀ (l : List MemUpd), OnlySetPm l → ∀ m : Mem, l.foldl applyUpd m = { m with pm := lastPm l m.pm }
+theorem foldl_onlySetPm : ∀ (l : List MemUpd), OnlySetPm l → ∀ m : Mem,
+    l.foldl applyUpd m = { m with pm := lastPm l m.pm, bm := lastBm l m.bm }
   | [], _, m => rfl
   | u :: l, h, m => by
-    obtain ⟨pm, rfl⟩ := h u (by simp)
-    simp only [List.foldl, lastPm]
-    rw [foldl_onlySetPm l (fun u hu => h u (by simp [hu]))]
-    rfl
+    rcases h u (by simp) with ⟨pm, rfl⟩ | ⟨b, rfl⟩
+    all_goals
+      simp only [List.foldl, lastPm, lastBm]
+      rw [foldl_onlySetPm l (fun u hu => h u (by simp [hu]))]
+      rfl
 
-structure CompactMem (m mF : Mem) (pmF : Meta) (root : Nat) (top : Bool) (k0 : Nat) (edges : List Nat) (ep : Nat) : Prop where
+structure CompactMem (m mF : Mem) (pmF : Meta) (bmF : Nat) (root : Nat) (top : Bool) (k0 : Nat) (edges : List Nat) (ep : Nat) : Prop where
   pm : mF.pm = pmF
+  bm : mF.bm = bmF
   idStart : mF.idStart = m.idStart
   idLen : mF.idLen = m.idLen
   exts : mF.exts = m.exts
@@ -409,9 +414,9 @@ structure CompactMem (m mF : Mem) (pmF : Meta) (root : Nat) (top : Bool) (k0 : N
 theorem compact_mem (m : Mem) (L cut : List MemUpd) (hL : OnlySetPm L) (hcut : cut = [] ∨ cut = [MemUpd.tailChecked])
     (up root : Nat) (top : Bool) (k0 : Nat) (edges : List Nat) (ep : Nat) :
     CompactMem m ((L ++ ([MemUpd.bumpTxid] ++ cut ++ [MemUpd.compacted up root top k0 edges ep])).foldl applyUpd m)
-      (lastPm L m.pm) root top k0 edges ep := by
+      (lastPm L m.pm) (lastBm L m.bm) root top k0 edges ep := by
   rw [List.foldl_append, foldl_onlySetPm L hL]
-  rcases hcut with rfl | rfl <;> exact ⟨rfl, rfl, rfl, rfl, rfl, rfl, rfl, rfl, rfl, rfl, rfl⟩
+  rcases hcut with rfl | rfl <;> exact ⟨rfl, rfl, rfl, rfl, rfl, rfl, rfl, rfl, rfl, rfl, rfl, rfl⟩
 
 /-- **a completed compaction re-establishes the handle invariant** (same committed list, new
     manifest) and leaves a log without torn tail (unless there was nothing to compact) -/
@@ -439,11 +444,11 @@ theorem compact_post {cfg : Cfg} {T : List Tx} {fs : FS} {m : Mem} {cs : List CT
     simp [segEdges, hs, hse]
   rw [steps_append]
   generalize hfsP : fs.steps (ioSteps (pagesA cfg m fs.pv).1) = fsP at hinv hwP hdP hrP hnew hsegE
-  have htP : TailPre cfg fsP { m with pm := (pagesA cfg m fs.pv).2.1.pm } := by
+  have htP : TailPre cfg fsP { m with pm := (pagesA cfg m fs.pv).2.1.pm, bm := (pagesA cfg m fs.pv).2.1.bm } := by
     rcases ht with ht | ht
     · left; rw [hwP]; exact ht
     · right; exact ht
-  have hwsEq : ({ m with pm := (pagesA cfg m fs.pv).2.1.pm } : Mem).ws fsP.wf = m.ws fs.wf := by
+  have hwsEq : ({ m with pm := (pagesA cfg m fs.pv).2.1.pm, bm := (pagesA cfg m fs.pv).2.1.bm } : Mem).ws fsP.wf = m.ws fs.wf := by
     simp [Mem.ws, hwP]
   obtain ⟨_, hpj0, hpd0, hst0, hclean0⟩ := cut_state hinv htP
   rw [hwsEq] at hpj0 hpd0 hst0 hclean0
@@ -467,7 +472,7 @@ theorem compact_post {cfg : Cfg} {T : List Tx} {fs : FS} {m : Mem} {cs : List CT
   have hwf2 : (fs1.steps [Step.ws]).wf = fs0.wf ++ frames recs := by simp [FS.steps, FS.step, hw1]
   have hCM := compact_mem m (memUpds (pagesA cfg m fs.pv).1) (cutUpds cfg (m.ws fs.wf)) pp.setpm (cutUpds_cases cfg (m.ws fs.wf))
     (cUpTo m) (pagesA cfg m fs.pv).2.2.2.1 (pagesA cfg m fs.pv).2.2.2.2 (pagesA cfg m fs.pv).2.2.1 (cEdges m) (m.epoch + 1)
-  rw [pp.lastpm] at hCM
+  rw [pp.lastpm, pp.lastbm] at hCM
   generalize (memUpds (pagesA cfg m fs.pv).1 ++ ([MemUpd.bumpTxid] ++ cutUpds cfg (m.ws fs.wf) ++
     [MemUpd.compacted (cUpTo m) (pagesA cfg m fs.pv).2.2.2.1 (pagesA cfg m fs.pv).2.2.2.2 (pagesA cfg m fs.pv).2.2.1 (cEdges m)
       (m.epoch + 1)])).foldl applyUpd m = mF at hCM
@@ -480,6 +485,7 @@ theorem compact_post {cfg : Cfg} {T : List Tx} {fs : FS} {m : Mem} {cs : List CT
         store := by rw [hpd2]; exact hstore'
         full := by rw [hpd2]; exact hinv.full
         mpm := by rw [hCM.pm, hpd2]; exact hinv.mpm
+        mbm := by rw [hCM.bm, hpd2]; exact hinv.mbm
         mlen := by rw [hCM.idLen]; exact h.mlen
         mstart := by rw [hCM.idStart, hpd2]; exact hinv.mstart
         mexts := by rw [hCM.exts]; exact h.mexts
